@@ -217,7 +217,7 @@ func TestVerifC19_Walker(t *testing.T) {
 				skips = append(skips, "/"+rapid.SampledFrom(c19Names).Draw(t, "s1")+"/"+rapid.SampledFrom(c19Names).Draw(t, "s2"))
 			}
 		}
-		rootMode := rapid.SampledFrom([]string{"dot", "dot", "relative", "dotslash", "absolute", "trailing-slash"}).Draw(t, "root")
+		rootMode := rapid.SampledFrom([]string{"dot", "dot", "relative", "dotslash", "absolute", "trailing-slash", "dotslash-twice", "dotslash-dot"}).Draw(t, "root")
 		var rootArg string
 		switch rootMode {
 		case "dot":
@@ -232,6 +232,12 @@ func TestVerifC19_Walker(t *testing.T) {
 		case "trailing-slash":
 			os.Chdir(base)
 			rootArg = "R/"
+		case "dotslash-twice": // "./$dir" with a $dir that find printed as ./R
+			os.Chdir(base)
+			rootArg = "././R"
+		case "dotslash-dot":
+			os.Chdir(treeDir)
+			rootArg = "./."
 		case "absolute":
 			os.Chdir(cwd)
 			rootArg = treeDir
